@@ -63,6 +63,14 @@ def tokens_of(src):
         return None
 
 
+OPENERS = re.compile(r"<<<|<<|<\*|[(\[]|\b(?:do|if|then|else|elif|for|while|fn|def|not|and|or|in|is)\b|[-+*/%]")
+
+
+def nesting_measure(src):
+    """an upper bound on the syntactic nesting depth of the text: the number of tokens that can open a nested construct"""
+    return len(OPENERS.findall(src))
+
+
 def nest(depth, rng):
     k = rng.randrange(6)
     inner = "1"
@@ -181,6 +189,9 @@ def run(ctx):
             ctx.violation("oracle", f"parsing {s[:120]!r} raises a host exception {a[1]}", rp)
         elif a[0] == 'timeout':
             ctx.violation("oracle", f"parsing {s[:120]!r} does not return within 2 s", rp)
+        elif a[0] == 'deep' and nesting_measure(s) < 25:
+            # the host's recursion limit is only an excuse for deeply nested text
+            ctx.violation("oracle", f"parsing {s[:120]!r} exhausts the host stack although the text is not deeply nested", rp)
         elif a[0] == 'syn' and not a[3]:
             ctx.violation("oracle", f"syntax error without a message or position for {s[:120]!r}: {a}", rp)
         if r is None or a[0] in ('deep',):
